@@ -109,6 +109,11 @@ def case_body(case):
         if op == "qty_div_rate":
             return "show_q(%s / %s)" % (qty_expr(case, t[0], a[2], u[2]), rate)
         return "show_q(%s * %s.reciprocal())" % (qty_expr(case, t[0], a[2], u[2]), rate)
+    if op in ("lookup_from_symbol", "lookup_unit_from_symbol"):
+        sym = "".join(ch if (32 <= ord(ch) < 127 and ch not in '"\\') else "\\u{%x}" % ord(ch) for ch in case["symbol"])
+        if op == "lookup_from_symbol":
+            return 'format!("L {:?}", <%sUnit as Unit>::from_symbol("%s"))' % (ty_path(case, t[0]), sym)
+        return 'format!("L {:?}", <%s as Quantity>::unit_from_symbol("%s"))' % (ty_path(case, t[0]), sym)
     if op == "temp_convert":
         return "show_oq(quantities::temperature::TEMPERATURE_CONVERTER.convert(&%s, %s))" % (qty_expr(case, t[0], a[0], u[0]), unit_expr(case, t[0], u[1]))
     raise ValueError("replay op " + op)
